@@ -6,7 +6,7 @@
 From Coq Require Import List NArith ZArith Bool String.
 Import ListNotations.
 From LV Require Import Model.Show Model.Base Model.Template Model.Eval Model.Derived Model.EvalRun.
-From LV Require Import Proofs.FrameProofs.
+From LV Require Import Proofs.FrameProofs Proofs.TemplateFrame.
 
 Close Scope string_scope.
 Open Scope list_scope.
@@ -56,7 +56,7 @@ Section Covered.
 
   (** [okd], for the cached expressions in the list [sl] *)
   Definition okdb (sl : list (N * expr)) (o : dict) : bool :=
-    wf_dict o && Bool.eqb (effects_opt_off o) esw && forallb (fun cb => site_cleanb (snd cb) o) sl.
+    wf_dict o && no_par o && Bool.eqb (effects_opt_off o) esw && forallb (fun cb => site_cleanb (snd cb) o) sl.
 
   (** [scoh] for the singleton dictionary set {o}, coherence apart *)
   Fixpoint scohb (sl : list (N * expr)) (e : expr) (o : dict) {struct e} : bool :=
@@ -88,7 +88,10 @@ Section Covered.
         scohb sl f o &&
         (fix go (l : list expr) : bool := match l with [] => true | x :: l' => scohb sl x o && go l' end) args &&
         (fix go (l : list expr) : bool := match l with [] => true | x :: l' => scohb sl x o && go l' end) kwargs
-    | EMap _ _ | ETemplate _ _ | EAllOptions => false
+    | ETemplate _ ps =>
+        (fix go (l : list (N * expr)) : bool :=
+           match l with [] => true | (_, x) :: l' => scohb sl x o && go l' end) ps
+    | EMap _ _ | EAllOptions => false
     end.
 End Covered.
 
